@@ -588,6 +588,8 @@ clientInput(void *data)
 	n = select(nfds + 1, &rfds, &wfds, &efds, &tv);
 
 	if (n < 0) {
+	    if (errno == EINTR)
+		continue; /* a signal handler ran on this thread */
 	    rfbLogPerror("ReadExact: select");
 	    break;
 	}
@@ -624,6 +626,11 @@ clientInput(void *data)
 #endif
         }
     }
+
+    /* The loop can also be left on an error, with nobody having closed the client: the output
+       thread only ends when it sees RFB_SHUTDOWN, which rfbCloseClient() sets. */
+    if (cl->state != RFB_SHUTDOWN)
+	rfbCloseClient(cl);
 
     /* Get rid of the output thread. */
     LOCK(cl->updateMutex);
@@ -678,6 +685,8 @@ listenerRun(void *data)
         tv.tv_sec = 0;
 	tv.tv_usec = screen->select_timeout_usec;
         if (select(screen->maxFd+1, &listen_fds, NULL, NULL, &tv) == -1) {
+            if (errno == EINTR)
+                continue; /* a signal handler ran on this thread */
             rfbLogPerror("listenerRun: error in select");
             return THREAD_ROUTINE_RETURN_VALUE;
         }
